@@ -283,6 +283,9 @@ func Materialise(tx *TxnSpec, base uint64, cfg CfgSpec, committed *State) ([]Ref
 				off = 0
 			}
 			idx = base + uint64(off)
+			if l.Fwd > 0 {
+				idx = base + uint64(span-1) + uint64(l.Fwd)
+			}
 		} else {
 			if committed == nil {
 				continue
